@@ -30,7 +30,7 @@ RULE = ("seeded plans: (grid class/shape/bounds/periodicity, registered operator
 PROBES = ["sched/regions", "sched/switches", "sched/switch_between_read_and_write", "probes/serial_branch_below_threshold",
           "probes/more_workers_than_rows", "probes/nine_point_stencil_prologue", "probes/route_scipy", "probes/route_sparse_matrix",
           "probes/route_compiled_ghost_setter", "probes/vectorized_operator_regions", "probes/dynamic_partition",
-          "probes/linked_value_sequence"]
+          "probes/linked_value_sequence", "probes/sibling_condition_built_first", "probes/antiperiodic_axis"]
 COMPONENTS = {
     "real": ["kernel source of pde.backends.numba.operators.{cartesian,cylindrical_sym} (executed by CPython, rewritten only at the "
              "prange loop), operator factories and registry, interpreted and compiled ghost-cell setters, fields, grids, scipy "
@@ -131,6 +131,11 @@ def gen_plan(rng, tier, idx):
         # a boundary value linked to a user array (bc.link_value) that is changed in place between two evaluations of
         # the same operator / setter objects: every route has to follow the live value
         "linked": [rng.uniform(-2, 2), rng.uniform(-2, 2)] if rng.random() < 0.2 else None,
+        # periodic axes carry "periodic" or "anti-periodic" conditions
+        "antiperiodic": rng.random() < 0.35,
+        # the same process has already built the numba operator for a sibling condition on an equal grid (same kind of
+        # condition, one attribute perturbed): the cached implementation of the sibling must not be handed out
+        "sibling_first": rng.random() < 0.3,
         "sched": {"seed": rng.randrange(1 << 30), "workers": rng.choice([2, 2, 3, 3, 4, 5]),
                   "partition": rng.choice(["static", "static", "roundrobin", "reversed", "dynamic"]),
                   "strategy": rng.choice(["random", "random", "pct", "chunk", "stall"]),
@@ -161,15 +166,40 @@ def _build_grid(spec):
     return pde.CylindricalSymGrid(rad, tuple(spec["bounds_z"]), spec["shape"], periodic_z=spec["periodic"][1])
 
 
-def _bc(kind, gspec):
+def _sibling(kind):
+    """A condition of the same kind with one attribute perturbed."""
     if isinstance(kind, str):
-        return kind
+        return "auto_periodic_dirichlet" if kind == "auto_periodic_neumann" else "auto_periodic_neumann"
+    out = copy.deepcopy(kind)
+    if "low" in out:
+        out["low"] = _sibling(out["low"])
+        return out
+    if out.get("type") == "mixed":
+        out["const"] = out.get("const", 0) + 1  # same value, other constant
+        return out
+    for k, v in out.items():
+        if isinstance(v, (int, float)):
+            out[k] = v + 1
+            return out
+        if isinstance(v, str):
+            out[k] = f"({v}) + 1"
+            return out
+    return out
+
+
+def _bc(kind, gspec, anti=False):
     names = AXES[gspec["cls"]][: len(gspec["shape"])]
     per = gspec.get("periodic") or [False] * len(names)
+    if isinstance(kind, str):
+        if anti and any(per):
+            # written out per axis: anti-periodic where the grid is periodic, the named default elsewhere
+            other = {"derivative": 0} if kind.endswith("neumann") else {"value": 0}
+            return {name: ("anti-periodic" if p else other) for name, p in zip(names, per)}
+        return kind
     out = {}
     for name, p in zip(names, per):
         if p:
-            out[name] = "periodic"
+            out[name] = "anti-periodic" if anti else "periodic"
         elif "low" in kind:
             out[name + "-"], out[name + "+"] = kind["low"], kind["high"]
         else:
@@ -212,9 +242,21 @@ def execute(plan):
     if plan["dtype"] == "complex":
         data = data + 1j * rng.uniform(-1, 1, size=shape)
     field = fcls(grid, data)
-    bc = _bc(plan["bc"], gspec)
+    anti = bool(plan.get("antiperiodic"))
+    bc = _bc(plan["bc"], gspec, anti)
     name, kw = plan["op"], dict(plan["kwargs"])
     backend = get_backend("numba")
+    if plan.get("sibling_first"):
+        try:
+            sib = _bc(_sibling(plan["bc"]), gspec, anti and not isinstance(plan["bc"], str))
+            g_sib = _build_grid(gspec)
+            op_sib = g_sib.make_operator(name, sib, backend="numba", **kw)
+            op_sib(np.array(data, copy=True))
+            if anti and any(gspec.get("periodic") or []):
+                g_sib.make_operator(name, _bc(plan["bc"], gspec, False), backend="numba", **kw)(np.array(data, copy=True))
+            probe("sibling_condition_built_first")
+        except Exception as err:  # noqa: BLE001 - the sibling is only there to populate caches
+            log.add("sibling-refused", type(err).__name__)
 
     def inadmissible(err):
         log.add("inadmissible", type(err).__name__)
@@ -265,6 +307,8 @@ def execute(plan):
         stats["sched"][k] = v
     regions = sched.stats["regions"]
     log.add("kernel", name, kw, regions, sched.region_sigs, fbits(out1))
+    if anti and any(gspec.get("periodic") or []):
+        probe("antiperiodic_axis")
     if regions == 0 and plan["threshold"] > size:
         probe("serial_branch_below_threshold")
     if regions and sched.W > grid.shape[0]:
@@ -408,7 +452,7 @@ def _linked_value_sequence(plan, grid, gspec, fcls, data, name, kw, rank_in, out
     value is linked to an array that the user changes in place."""
     from pde.grids.boundaries.local import ConstBCBase
 
-    bc = _bc(plan["bc"], gspec)
+    bc = _bc(plan["bc"], gspec, bool(plan.get("antiperiodic")))
     try:
         bcs = grid.get_boundary_conditions(bc, rank=rank_in)
     except Exception:  # noqa: BLE001
@@ -540,6 +584,10 @@ def simplify(plan):
             yield variant(lambda p, seed=seed: p["sched"].update(seed=seed))
     if plan["threshold"] != 1:
         yield variant(lambda p: p.update(threshold=1))
+    if plan.get("antiperiodic"):
+        yield variant(lambda p: p.update(antiperiodic=False))
+    if plan.get("sibling_first"):
+        yield variant(lambda p: p.update(sibling_first=False))
     if plan.get("linked"):
         yield variant(lambda p: p.update(linked=None))
         if plan["linked"] != [1.0, 2.0]:
